@@ -64,6 +64,10 @@ class SymNP(types.ModuleType):
     """See module docstring."""
 
     def __getattr__(self, name):
+        if name == "pi" and SymNP.symbolic_pi and Ctx.cur is not None:
+            v = z3.Real("pi")
+            Ctx.cur.assume(z3.And(v > z3.RealVal("3.14159265358979"), v < z3.RealVal("3.14159265358980")))
+            return Sym(v)
         return getattr(np, name)
 
     # ---- allocation
@@ -256,6 +260,7 @@ class SymNP(types.ModuleType):
         return np.cov(m, y, rowvar=rowvar, bias=bias, ddof=ddof, fweights=fweights, aweights=aweights, **kw)
 
     symbolic_trig = True
+    symbolic_pi = True
 
 
 def _cos(v):
